@@ -232,6 +232,13 @@ def gen(shard):
                 yield tt, ('20040102200401021200')[:n]
                 yield tt, '1' * n
                 yield tt, '0' * n
+            # every admissible length with one non-digit at each position (a letter, a blank, a sign, a point)
+            for n in (4, 6, 7, 8, 12, 17):
+                base_ = ('200401021200' + '20040102')[:n] if n != 6 else '040102'
+                for i in range(n):
+                    for c in ('A', ' ', '-', '.', '_'):
+                        yield tt, base_[:i] + c + base_[i + 1:]
+                yield tt, 'UNKNWN'[:n].ljust(n, 'X')
             for bad in ['2004010a', 'a0040102', '2004 102', '20040102 ', ' 20040102', '2004-01-02', '20040102\n',
                         '٣' * 8, '2004010٣', '+2004010', '-2004010', '2004.102', '040102\n', '1200\n', '12٣٣']:
                 yield tt, bad
